@@ -77,6 +77,13 @@ void AbstractParameterAliasable::aliasParameters(const std::string& p1, const st
   if (!independentParameters_.hasParameter(getNamespace() + p2))
     throw Exception("AbstractParameterAliasable::aliasParameters. Parameter " + p2 + " does not exist in independent parameters. Perhaps it is already aliased to a parameter and can't be aliased twice.");
 
+  // Refuse to close a cycle: p2 must be neither p1 itself nor a parameter p1 is (transitively) aliased to.
+  for (string anc = p1; anc != ""; anc = getFrom(getNamespace() + anc))
+  {
+    if (anc == p2)
+      throw Exception("AbstractParameterAliasable::aliasParameters. Aliasing parameter " + p2 + " to " + p1 + " would create a cycle.");
+  }
+
   string id = "__alias_" + p2 + "_to_" + p1;
   string idCheck = "__alias_" + p1 + "_to_" + p2;
 
